@@ -126,7 +126,11 @@ impl PathRequireMode {
     pub(crate) fn is_module_folder_name(&self, path: &Path) -> bool {
         let expect_value = Some(self.module_folder_name.as_str());
         path.file_name().and_then(OsStr::to_str) == expect_value
-            || path.file_stem().and_then(OsStr::to_str) == expect_value
+            || (path.file_stem().and_then(OsStr::to_str) == expect_value
+                && matches!(
+                    path.extension().and_then(OsStr::to_str),
+                    Some("lua") | Some("luau")
+                ))
     }
 
     pub(crate) fn generate_require(
